@@ -1,6 +1,7 @@
 // C20 (asynchronous half): the real AsyncFileAppender + LogStreamBuffer under the deterministic scheduler.
 // The appender's .cpp files are compiled into this driver with the atomic shim (see checks/c20.py).
 // stdin lines: <case-id> <sched-seed> <strategy> <page-size> <queue-capacity> <nfiles> <rotate-every> <program>
+//   rotate-every: k>0 rotate the descriptor every k-th check, k<0 slow file (sleeps -k us per check)
 //   program: threads '|', entries ',' ; entry = <file>:<length>   (thread 0 also initializes and closes)
 // stdout: <case-id> ok steps=.. | files=<per file: entry tags in stream order> | monitors
 #include "shim/prelude.h"
@@ -46,6 +47,7 @@ struct RecFile : public FileObject {
   int newfd() { int fd = memfd_create("c20", 0); fds.push_back(dup(fd)); return fd; }
   std::tuple<int, int> check_and_get_file_descriptor() noexcept override {
     calls++;
+    if (rotate_every < 0) usleep((useconds_t)(-rotate_every));   // slow file: lets a backlog build up in the queue
     if (current < 0) { current = newfd(); return {current, -1}; }
     if (rotate_every > 0 && calls % rotate_every == 0) {
       int old = current; current = newfd(); return {current, old};
